@@ -412,7 +412,7 @@ structure Fixed where
   deriving DecidableEq, Repr
 
 /-- the repairs present in the tree the check runs against -/
-def fixedNow : Fixed := { memoTime := true }
+def fixedNow : Fixed := { emptyMetaTid := true, configuredOrder := true, memoTime := true }
 
 /-- 01: `if p.MetaTraceID == "" { p.MetaTraceID = traceIDSoFar }` after a metadata assignment -/
 def keepTid (fx : Fixed) (prev : String) (m : Meta) : Meta :=
